@@ -40,6 +40,13 @@ func init() {
 			}
 			return
 		}
+		if v.Sub == "schemas-sharing-names" {
+			var in c10TwinInput
+			if json.Unmarshal(v.Input, &in) == nil {
+				c10Twin(c, s, in)
+			}
+			return
+		}
 		var in kitDoc
 		if json.Unmarshal(v.Input, &in) == nil {
 			c10Doc(c, s, in)
@@ -424,6 +431,23 @@ func runC10(c *explore.Ctx) {
 		}
 		s.WallS = time.Since(t0).Seconds()
 	}
+	// two schemas that use the same names for different things
+	s = c.Sub("schemas-sharing-names", fmt.Sprintf("two loaded schemas whose types Pet and Kind and field k carry the same names but other fields / values / arguments; each has a twin (PetT, KindT, kt) with the content of its own Pet / Kind / k under a name the other schema never uses; %d documents with near-miss names (field, enum value, argument) × both orders of the two schemas", len(c10TwinDocs)),
+		"the errors for a document against a schema are the same whether or not the other schema saw the document first: they equal, up to the twin's name, the errors of the twin document whose names no other validation has used", "documents with an error")
+	if s != nil {
+		t0 := time.Now()
+		for i := range c10TwinDocs {
+			for first := 0; first < 2; first++ {
+				if (2*i+first)%c.NShards != c.Shard {
+					continue
+				}
+				s.States++
+				s.Transitions++
+				c10Twin(c, s, c10TwinInput{Doc: i, First: first})
+			}
+		}
+		s.WallS = time.Since(t0).Seconds()
+	}
 	// fresh processes of the un-instrumented build
 	s = c.Sub("fresh-processes", "three fresh processes of the un-instrumented build (native randomised map iteration, fresh hash seeds) and the instrumented ascending-order execution, over every profile document and every kit type system with ≤ 1 menu item",
 		"all four digests of the complete error lists agree (the map-order seam owns the nondeterminism; results do not depend on the process)", "every process")
@@ -456,4 +480,105 @@ func runC10(c *explore.Ctx) {
 		s.Samples = append(s.Samples, "digest "+own)
 		s.WallS = time.Since(t0).Seconds()
 	}
+}
+
+// ---- schemas that share names ----------------------------------------------------------------
+
+var c10TwinSDL = [2]string{
+	`type Query { pet: Pet twin: PetT k(v: Kind, w: Int, wide: Int): Int kt(v: KindT, w: Int, wide: Int): Int }
+type Pet { id: ID name: String nick: String kind: Kind }
+type PetT { id: ID name: String nick: String kind: Kind }
+enum Kind { DOG CAT }
+enum KindT { DOG CAT }
+`,
+	`type Query { pet: Pet twin: PetT k(v: Kind, x: Int, wise: Int): Int kt(v: KindT, x: Int, wise: Int): Int }
+type Pet { id: ID fame: String pick: String kine: Kind }
+type PetT { id: ID fame: String pick: String kine: Kind }
+enum Kind { DOT CAR }
+enum KindT { DOT CAR }
+`,
+}
+
+// c10TwinDocs: a document and its twin (the same selection through the twin names).
+var c10TwinDocs = func() [][2]string {
+	var out [][2]string
+	for _, f := range []string{"nam", "nic", "kin", "name", "nick", "kind", "idd", "fam", "pic", "fame", "kine", "i"} {
+		out = append(out, [2]string{"{ pet { " + f + " } }", "{ twin { " + f + " } }"})
+	}
+	for _, v := range []string{"DOGG", "DO", "CAT", "CA", "DOG", "DOT", "CAR", "\"DOG\"", "\"CAR\""} {
+		out = append(out, [2]string{"{ k(v: " + v + ") }", "{ kt(v: " + v + ") }"})
+	}
+	for _, a := range []string{"ww", "w", "xx", "x", "wid", "wis", "wide", "wise", "vv"} {
+		out = append(out, [2]string{"{ k(" + a + ": 1) }", "{ kt(" + a + ": 1) }"})
+	}
+	return out
+}()
+
+type c10TwinInput struct {
+	Doc   int `json:"doc"`
+	First int `json:"first"` // the schema that sees the document first
+}
+
+var c10TwinSchemas [2]*ast.Schema
+
+func c10Twin(c *explore.Ctx, s *explore.SubStats, in c10TwinInput) {
+	if in.Doc < 0 || in.Doc >= len(c10TwinDocs) || in.First < 0 || in.First > 1 {
+		return
+	}
+	if c10TwinSchemas[0] == nil {
+		for i := range c10TwinSDL {
+			sch, err := gqlparser.LoadSchema(&ast.Source{Name: "twin.graphql", Input: c10TwinSDL[i]})
+			if err != nil {
+				panic("C10: twin schema does not load: " + err.Error())
+			}
+			c10TwinSchemas[i] = sch
+		}
+	}
+	verifhook.OrderPolicy, verifhook.Perm = 0, nil
+	s.Executions++
+	pair := c10TwinDocs[in.Doc]
+	msgs := func(sch *ast.Schema, q string) string {
+		d, err := parser.ParseQuery(&ast.Source{Name: "q.graphql", Input: q})
+		if err != nil {
+			return "parse: " + err.Error()
+		}
+		var b strings.Builder
+		for _, e := range validator.Validate(sch, d) {
+			b.WriteString(e.Rule + ": " + e.Message + "\n")
+		}
+		return b.String()
+	}
+	untwin := strings.NewReplacer("PetT", "Pet", "KindT", "Kind", `"kt"`, `"k"`, `"twin"`, `"pet"`, "Query.kt", "Query.k", "Query.twin", "Query.pet")
+	other := 1 - in.First
+	_ = msgs(c10TwinSchemas[in.First], pair[0])
+	got := msgs(c10TwinSchemas[other], pair[0])
+	want := untwin.Replace(msgs(c10TwinSchemas[other], pair[1]))
+	s.Validated++
+	if got != "" {
+		s.Nontrivial++
+	}
+	s.Outcome(fmt.Sprintf("errors=%v", got != ""))
+	if got != want {
+		c.Report(s, explore.Violation{Key: "history/other-schema-with-the-same-names " + firstRule(got, want), Input: explore.J(in), Rendered: fmt.Sprintf("%s against schema %d after schema %d", pair[0], other, in.First),
+			Detail: "the errors differ from those of the twin document, whose type / field names no earlier validation has used", Expected: want, Observed: got})
+	}
+}
+
+func firstRule(a, b string) string {
+	al, bl := strings.Split(a, "\n"), strings.Split(b, "\n")
+	for i := 0; i < len(al) || i < len(bl); i++ {
+		x, y := "", ""
+		if i < len(al) {
+			x = al[i]
+		}
+		if i < len(bl) {
+			y = bl[i]
+		}
+		if x != y {
+			if k := strings.Index(x+y, ":"); k > 0 {
+				return "rule=" + (x + y)[:k]
+			}
+		}
+	}
+	return "rule=?"
 }
